@@ -242,7 +242,7 @@ Fixpoint retract_list (h : store) (fresh : nat -> nat) (args : list term) (fs : 
       end
   end.
 
-Inductive kres := KGo (m : mstate) | KAns (tr : store) (m : mstate) | KDone | KErr (code : nat).
+Inductive kres := KGo (m : mstate) | KAns (tr : store) (m : mstate) | KDone | KErr (code : nat) (m : mstate).
 
 Definition is_fun (t : term) : bool := match t with TFun _ _ => true | _ => false end.
 
@@ -274,7 +274,7 @@ Definition dbstep (h0 : store) (fresh newid : nat -> nat) (m : mstate) (b : dbop
       | None => KGo (mkms d (mnf m) r (mlog m))
       | Some (nm, fa) =>
           match retract_list (tr ++ h0) (fun i => fresh (cnt + i)) fa (find_facts d nm (length fa)) with
-          | None => KErr 9
+          | None => KErr 9 (mkms d (mnf m) (mfr m) (mkev false false (nm, length fa) :: mlog m))
           | Some keep =>
               KGo (mkms (set_facts (nm, length fa) keep d) (mnf m) (FGoals tr cnt gs :: r)
                         (mkev true true (nm, length fa) :: mlog m))
@@ -299,8 +299,8 @@ Definition sstep (h0 : store) (fresh newid : nat -> nat) (m : mstate) : kres :=
       match unify_arrays2 UF (tr ++ h0) args f' with
       | UOk s' => KGo (mkms d (mnf m) (FGoals (strip s' h0) (cnt + lmax f) gs :: r) (mlog m))
       | UFail => KGo (mkms d (mnf m) r (mlog m))
-      | UOof => KErr 1
-      | UCyc => KErr 2
+      | UOof => KErr 1 m
+      | UCyc => KErr 2 m
       end
   | FFun tr cnt fn args gs :: r =>
       match fn with
@@ -310,11 +310,11 @@ Definition sstep (h0 : store) (fresh newid : nat -> nat) (m : mstate) : kres :=
           | Some b =>
               match args with
               | [t] => dbstep h0 fresh newid m b tr cnt t gs r
-              | _ => KErr 3
+              | _ => KErr 3 m
               end
           | None =>
               match clauses_of ds with
-              | None => KErr 3
+              | None => KErr 3 m
               | Some cls => KGo (mkms d (mnf m) (map (fun c => FClause tr cnt args c gs) cls ++ r) (mlog m))
               end
           end
@@ -324,8 +324,8 @@ Definition sstep (h0 : store) (fresh newid : nat -> nat) (m : mstate) : kres :=
       match unify_arrays2 UF (tr ++ h0) args (fst cl') with
       | UOk s' => KGo (mkms d (mnf m) (FGoals (strip s' h0) (cnt + clmax cl) (snd cl' ++ gs) :: r) (mlog m))
       | UFail => KGo (mkms d (mnf m) r (mlog m))
-      | UOof => KErr 1
-      | UCyc => KErr 2
+      | UOof => KErr 1 m
+      | UCyc => KErr 2 m
       end
   | FRet tr cnt nm args f gs :: r =>
       let f' := map (rn (fun i => fresh (cnt + i))) (fargs f) in
@@ -338,8 +338,8 @@ Definition sstep (h0 : store) (fresh newid : nat -> nat) (m : mstate) : kres :=
                          (mkev true true (nm, length args) :: mlog m))
           else KGo (mkms d (mnf m) r (mkev false false (nm, length args) :: mlog m))
       | UFail => KGo (mkms d (mnf m) r (mlog m))
-      | UOof => KErr 1
-      | UCyc => KErr 2
+      | UOof => KErr 1 m
+      | UCyc => KErr 2 m
       end
   end.
 
@@ -352,7 +352,7 @@ Fixpoint search (fuel : nat) (h0 : store) (fresh newid : nat -> nat) (m : mstate
       | KGo m' => search fuel h0 fresh newid m'
       | KAns tr m' => SAns tr m'
       | KDone => SDone m
-      | KErr k => SErr k m
+      | KErr k m' => SErr k m'
       end
   end.
 
